@@ -10,8 +10,8 @@ type Finding struct {
 	ID          string            `json:"id"`
 	Property    string            `json:"property"`
 	Also        []string          `json:"also,omitempty"` // further properties the same defect violates
-	Status      string            `json:"status"` // open | fixed
-	Matcher     map[string]string `json:"matcher"` // what identifies the failing input / call site / history
+	Status      string            `json:"status"`         // open | fixed
+	Matcher     map[string]string `json:"matcher"`        // what identifies the failing input / call site / history
 	Description string            `json:"description"`
 	Commit      string            `json:"commit,omitempty"` // for fixed entries
 }
